@@ -1,7 +1,7 @@
 SPECIFICATION Spec
 CONSTANTS N = 2 MaxCalls = 2
-Menu = {"json", "marshal", "bytes", "parse", "struct", "recompose", "pure"}
-Copies = {"json", "bytes", "parse", "struct"}
+Menu = {"hook", "json", "bytes"}
+Copies = {"json", "marshal", "bytes", "parse", "struct"}
 LockedLookup = TRUE PreRegistered = TRUE ExclusivePool = TRUE Scratch = "percall" Gran = "fine"
 INVARIANTS Exclusive BufferIsolation NoUnlockedWriteRead SequentialEquivalence
 VIEW DesignView
